@@ -7,23 +7,15 @@ import (
 	"os"
 )
 
-// Known-finding classes (see notes/C08.md). A failure is tagged with a class only when it has exactly
-// the shape of that class; anything else is reported untagged.
+// Known-finding classes (see notes/C08.md, /verif/known_findings.json). A failure is tagged with a class only when it has
+// exactly the shape of that class, or is a direct consequence of such an event on the same node; anything else is reported
+// untagged. (Three further classes found by this harness were repaired in /repo: a61f1aeb, db1b9b14 — their oracles are
+// plain failures now and their scripted histories A2, A3, A5 are regression tests.)
 const (
 	// Status.load is lazy: between NewStatus (process start) and the first Update the Status holds a fresh
 	// libStatus whose LIB number is 0, so NeedReorganization allows every root and VerifyTimestamp accepts
 	// every number.
 	classLazyLoad = "C08-restart-lazy-load-veto-gap"
-	// loadPlibStatus/bootLoader hand confirmsRequired to newLibStatus, whose parameter is a producer count:
-	// the replayed window needs only cr(cr(n)) (restart: cr(cr(cr(n)))) confirmations; differs from cr(n) for n >= 5.
-	classReloadQuorum = "C08-reload-quorum-shrinks"
-	// a permitted reorganisation (branch root >= LIB): rollbackStatusTo reloads the pre-LIB map as of the branch root
-	// and keeps Lib; the first calcLIB of the roll-forward selects from the lowered pre-LIBs and updateLIB stores the
-	// result without comparing it with the current LIB.
-	classReorgRegress = "C08-lib-decreases-after-permitted-reorg"
-	// calcLIB takes element (len-1)/3 of the pre-LIBs of the producers SEEN SO FAR: a LIB selected while k producers were
-	// known is re-selected lower once another producer's first block adds a genesis placeholder entry (n >= 5).
-	classNewProducer = "C08-lib-decreases-when-producer-first-seen"
 	// rollbackStatusTo (load) overwrites only the proposed entries the replayed window yields; entries of other producers keep
 	// pre-LIBs (and confirming blocks) of the abandoned branch, and calcLIB can select one: the LIB is then not on the main chain.
 	classStaleEntry = "C08-lib-from-stale-entry-of-abandoned-branch"
@@ -33,12 +25,14 @@ var classSeen = map[string]int{}
 
 var arrNames = []string{"known", "orphan", "rejected-le-lib", "main", "side", "reorg", "reorg-vetoed"}
 
-func (n *node) fail(what, class string) {
+// fail: inherit = the failure can be a consequence of a tagged event that already happened on this node (the node adopted a
+// branch through the restart veto gap, or reported a LIB taken from a stale entry): it then carries that class.
+func (n *node) fail(what, class string, inherit bool) {
 	if n.fault {
 		return
 	}
-	if class == "" {
-		class = n.taint // a consequence of an already reported, tagged failure on this node
+	if class == "" && inherit {
+		class = n.taint
 	}
 	n.w.run.Count("fail-class=" + class)
 	n.w.run.Count(fmt.Sprintf("fail-class=%s producers=%d", class, len(n.w.gbps)))
@@ -61,14 +55,18 @@ func (n *node) fail(what, class string) {
 	n.w.run.FailKnown(what, class, n.replay())
 }
 
-func (n *node) failVeto(what string) {
+// failVeto: a veto function let something at or below a reported LIB through. adopted = the node really reorganised below
+// its reported LIB because of it (not a mere probe).
+func (n *node) failVeto(what string, adopted bool) {
 	class := ""
 	if !n.dump().Loaded {
 		class = classLazyLoad
-		n.taint = class
 		what += " (the Status had not yet loaded its saved finality status: first block activity after a restart)"
+		if adopted && n.taint == "" {
+			n.taint = class
+		}
 	}
-	n.fail(what, class)
+	n.fail(what, class, true)
 }
 
 func quorum(size int) int { return size*2/3 + 1 }
@@ -92,24 +90,10 @@ func (n *node) afterArrival(b *sblk, res int) {
 	}
 	// monotone
 	if lib.No < n.lastNo {
-		class := ""
-		if res == arrReorg || n.reorgSinceRaise {
-			class = classReorgRegress
-		} else if res == arrMain && len(d.Prpsd) > n.prpsdAtRaise {
-			class = classNewProducer
-		}
-		if class != "" && n.taint == "" {
-			n.taint = class // the vetoes now work with the lowered LIB: what follows on this node is a consequence
-		}
-		n.fail(fmt.Sprintf("reported LIB number decreased from %d to %d (arrival of %s: %s)", n.lastNo, lib.No, b.name, arrNames[res]), class)
+		n.fail(fmt.Sprintf("reported LIB number decreased from %d to %d (arrival of %s: %s)", n.lastNo, lib.No, b.name, arrNames[res]), "", false)
 	}
 	if lib.No > n.lastNo {
 		w.run.Count("lib-advanced")
-		n.prpsdAtRaise = len(d.Prpsd)
-		n.reorgSinceRaise = false
-	}
-	if res == arrReorg {
-		n.reorgSinceRaise = true
 	}
 	// on the main chain
 	var lb *sblk
@@ -128,7 +112,7 @@ func (n *node) afterArrival(b *sblk, res int) {
 				n.taint = class
 			}
 			n.fail(fmt.Sprintf("reported LIB %s is not a block of the node's main chain (main chain has %s at %d, best %s)",
-				w.showBI(lib), nameAt(n.main, lib.No), lib.No, n.best.name), class)
+				w.showBI(lib), nameAt(n.main, lib.No), lib.No, n.best.name), class, true)
 		}
 	}
 	// quorum: a new LIB needs blocks of more than two thirds of the producers at or above it
@@ -139,12 +123,8 @@ func (n *node) afterArrival(b *sblk, res int) {
 		}
 		size := int(n.cm.Size())
 		if len(seen) < quorum(size) {
-			class := ""
-			if size >= 5 {
-				class = classReloadQuorum
-			}
 			n.fail(fmt.Sprintf("LIB advanced to %s with blocks of only %d distinct producers at or above it on the main chain; more than 2/3 of %d producers = %d needed",
-				w.showBI(lib), len(seen), size, quorum(size)), class)
+				w.showBI(lib), len(seen), size, quorum(size)), "", false)
 		}
 		w.run.Count(fmt.Sprintf("lib-quorum-margin=%d", len(seen)-quorum(size)))
 	}
@@ -154,7 +134,7 @@ func (n *node) afterArrival(b *sblk, res int) {
 	}
 	if n.maxLib.b != nil && (n.maxLib.no >= uint64(len(n.main)) || n.main[n.maxLib.no] != n.maxLib.b) {
 		n.fail(fmt.Sprintf("block %s (no %d), reported as LIB earlier, was replaced on the main chain (now %s)",
-			n.maxLib.b.name, n.maxLib.no, nameAt(n.main, n.maxLib.no)), "")
+			n.maxLib.b.name, n.maxLib.no, nameAt(n.main, n.maxLib.no)), "", true)
 	}
 	n.lastNo = lib.No
 }
@@ -175,8 +155,8 @@ func agreement(w *world, nodes []*node, replay func() interface{}) {
 				continue
 			}
 			if !a.isAncestorOf(b) && !b.isAncestorOf(a) {
-				// a node on which a tagged node-local failure was already reported (its LIB left the main chain, regressed,
-				// or its vetoes were off) carries that class: the disagreement is a consequence
+				// attributable to a known class only if one of the two nodes really adopted a branch below its reported LIB through
+				// the restart veto gap, or really reported a LIB taken from a stale entry (node.taint is set by those two events only)
 				class := nodes[i].taint
 				if class == "" {
 					class = nodes[j].taint
